@@ -9,7 +9,7 @@ class PROP(Prop):
     profiles = ["debug"]
     rule = ("RTU server (RTU-over-TCP, injected transport) and RTU client: valid frames; EVERY single-bit flip of each frame; sampled (quick) / all "
             "(thorough, short frames) double-bit flips and bursts of <= 16 bits; all 65536 values of the CRC field of a frame (sampled in quick); "
-            "random noise with embedded frames; random chunkings.  Emitted request and response frames (also after write faults, abandoned calls, refused oversize requests, and the SAME request repeated after set_slave chose another device) checked with an independent table-driven "
+            "random noise with embedded frames; bursts of 2..4 large pipelined frames (well over 256 bytes buffered at once, cut inside a frame); random chunkings.  Emitted request and response frames (also after write faults, abandoned calls, refused oversize requests, and the SAME request repeated after set_slave chose another device) checked with an independent table-driven "
             "CRC.  Oracle: every delivered (slave, request)/returned response corresponds to a CRC-valid contiguous slice of the injected stream, "
             "in stream order, non-overlapping; a damaged frame is never delivered.  non-trivial = stream containing a corrupted frame or noise")
 
@@ -60,6 +60,33 @@ class PROP(Prop):
                 parts.append(bytes(rng.randrange(256) for _ in range(rng.randrange(0, 12))))
                 parts.append(mb.rtu_frame(rng.randrange(256), mb.spec_req_pdu(rtugen.rtu_req(rng))))
             self.srv(cs, [b"".join(parts)], rng, "noise")
+        # long bursts: several LARGE frames pipelined so that far more than one maximal frame (256 bytes) is buffered at once, whole or cut
+        # inside a frame, some with one frame damaged: every frame delivered is still a contiguous CRC-valid slice of what was received
+        for _ in range(60 if tier == "quick" else 600):
+            frames = []
+            for _k in range(rng.randrange(2, 5)):
+                big = rng.choice([("WMR", rng.randrange(65536), [rng.randrange(65536) for _ in range(rng.randrange(50, 124))]),
+                                  ("WMC", rng.randrange(65536), [rng.random() < 0.5 for _ in range(rng.randrange(800, 1969))]),
+                                  ("RWMR", rng.randrange(65536), rng.randrange(1, 126), rng.randrange(65536), [rng.randrange(65536) for _ in range(rng.randrange(40, 122))])])
+                fr = mb.rtu_frame(rng.randrange(256), mb.spec_req_pdu(big))
+                if rng.random() < 0.25:
+                    b = bytearray(fr); bit = rng.randrange(16, len(fr) * 8); b[bit // 8] ^= 1 << (bit % 8); fr = bytes(b)
+                frames.append(fr)
+            data = b"".join(frames) + bytes(rng.randrange(256) for _ in range(rng.choice([0, 0, 9, 42])))
+            cuts = rng.choice([[], [256], [257], [300], [len(frames[0]) + 107], sorted(rng.sample(range(1, len(data)), 2))])
+            if rng.random() < 0.5:
+                # an adversarial tail: bytes that would complete the first `c` bytes of the LAST frame to a CRC-correct frame of the announced
+                # length if the rest of that frame were forgotten (c often = what fits into 256 bytes): the spliced frame never was on the wire
+                head = b"".join(frames[:-1]); last = frames[-1]
+                c = 256 - len(head) if 3 < 256 - len(head) < len(last) - 3 and rng.random() < 0.7 else rng.randrange(3, len(last) - 3)
+                x = bytes(rng.randrange(256) for _ in range(len(last) - c - 2))
+                crc = mb.crc16(last[:c] + x)
+                data = head + last + x + bytes([crc & 0xFF, crc >> 8])
+                cuts = [len(head) + len(last)]
+            parts, prev = [], 0
+            for c in [c for c in cuts if 0 < c < len(data)] + [len(data)]:
+                parts.append(data[prev:c]); prev = c
+            cs.append(Case("SRV rtu %s - - -" % mb.rscript([p for p in parts if p]), {"k": "srv_burst256", "stream": data.hex()}))
         # client side: replies, flips, noise
         for _ in range(60 if tier == "quick" else 400):
             req = mb.rnd_req(rng, rng.choice(["RC", "RHR", "WSR", "WSC", "MWR", "RIR"]))
